@@ -6,7 +6,7 @@ use std::time::Duration;
 
 use super::super::{co_io_result, IoData};
 #[cfg(feature = "io_cancel")]
-use crate::coroutine_impl::co_cancel_data;
+use crate::coroutine_impl::co_get_handle;
 use crate::coroutine_impl::{is_coroutine, CoroutineImpl, EventSource};
 use crate::io::AsIoData;
 use crate::os::unix::net::UnixDatagram;
@@ -66,8 +66,11 @@ impl<'a> UnixRecvFrom<'a> {
 impl EventSource for UnixRecvFrom<'_> {
     fn subscribe(&mut self, co: CoroutineImpl) {
         #[cfg(feature = "io_cancel")]
-        let cancel = co_cancel_data(&co);
-        let io_data = self.io_data;
+        // an owned handle: the cancel data must stay alive after the coroutine has been published below
+        let handle = co_get_handle(&co);
+        // an owned reference to the event data: once the coroutine is published another thread may resume it,
+        // `self` (on its stack) and the socket object may be gone before this function returns
+        let io_data = (**self.io_data).clone();
 
         #[cfg(feature = "io_timeout")]
         if let Some(dur) = self.timeout {
@@ -86,7 +89,8 @@ impl EventSource for UnixRecvFrom<'_> {
         #[cfg(feature = "io_cancel")]
         {
             // register the cancel io data
-            cancel.set_io((*io_data).clone());
+            let cancel = handle.get_cancel();
+            cancel.set_io(io_data.clone());
             // re-check the cancel status
             if cancel.is_canceled() {
                 unsafe { cancel.cancel() };
